@@ -480,6 +480,85 @@ def _sizes_work(item):
   return n, viols
 
 
+# ---- one callback object handed two records at the same time (two stations / two DUT threads sharing an output callback) ----
+def run_shared_callback(mode, hold_at):
+  """Record 1's serialization is suspended after `hold_at` chunks while record 2 goes through the same callback object
+  completely (event-driven, no timing); both destinations must hold exactly their own serialization."""
+  import copy, shutil, tempfile, threading  # pylint: disable=g-import-not-at-top,multiple-imports
+  cb, jf, aw = mods()
+  rec1 = make_record('small')
+  rec2 = copy.copy(rec1)
+  rec2.dut_id = 'DUT-8'
+  chunks = {'DUT-7': ['[1-a,', '1-b,' * 3000, '1-c]'], 'DUT-8': ['[2-a,', '2-b,' * 3000, '2-c]']}
+  held, release = threading.Event(), threading.Event()
+
+  class Shared(cb.OutputToFile):
+
+    @staticmethod
+    def serialize_test_record(test_rec):
+      def gen():
+        for i, c in enumerate(chunks[test_rec.dut_id]):
+          if test_rec.dut_id == 'DUT-7' and i == hold_at:
+            held.set()
+            release.wait(10)
+          yield c.encode() if mode == 'iter_bytes' else c
+      return gen()
+
+  root = tempfile.mkdtemp(prefix='c17sh_', dir=os.environ.get('VERIF_SCRATCH') or None)
+  errs = {}
+  try:
+    o = Shared(pattern_in(root, 'brace'))
+
+    def first():
+      try:
+        o(rec1)
+      except Exception as e:  # pylint: disable=broad-except
+        errs[1] = repr(e)
+
+    t = threading.Thread(target=first, name='record-1')
+    t.start()
+    ok = held.wait(10)
+    try:
+      o(rec2)
+    except Exception as e:  # pylint: disable=broad-except
+      errs[2] = repr(e)
+    release.set()
+    t.join(20)
+    out = {}
+    for rec in (rec1, rec2):
+      dest = os.path.join(root, expected_name('brace', rec))
+      out[rec.dut_id] = open(dest, 'rb').read() if os.path.exists(dest) else None
+    left = sorted(f for f in os.listdir(root) if f not in [expected_name('brace', r) for r in (rec1, rec2)])
+  finally:
+    shutil.rmtree(root, ignore_errors=True)
+  bad = []
+  if not ok:
+    bad.append(('shared:harness', 'record 1 never reached its hold point'))
+  for dut in ('DUT-7', 'DUT-8'):
+    exp = ''.join(chunks[dut]).encode()
+    if out.get(dut) != exp:
+      got = out.get(dut)
+      bad.append(('shared:content:%s' % mode, 'one callback object, two records at once (record 1 held after %d chunks): destination of %s holds '
+                  '%s, its serialization has %d bytes (errors %r)' % (hold_at, dut, 'nothing' if got is None else '%d bytes%s' % (
+                      len(got), '' if got != exp[:len(got)] else ' (a strict prefix)'), len(exp), errs)))
+  if errs:
+    bad.append(('shared:raised', 'callback raised %r' % (errs,)))
+  if left:
+    bad.append(('shared:leftover', 'files left next to the destinations: %r' % (left,)))
+  return bad
+
+
+def run_shared(rep):
+  n = 0
+  for mode in ('iter_text', 'iter_bytes'):
+    for hold_at in (0, 1, 2):
+      n += 1
+      for sig, what in run_shared_callback(mode, hold_at):
+        rep.merge_violations([(sig, what, {'shared_case': [mode, hold_at]})])
+  rep.add_part('one callback object, two concurrent records', evaluations=n, distinct_nontrivial=n, exhaustive=True,
+               samples=[{'shape': 'record 1 suspended after k of 3 chunks while record 2 is written completely', 'k': [0, 1, 2]}])
+
+
 def run_sizes(rep):
   items = [(m, [n1]) for m in ('iter_text', 'iter_bytes') for n1 in SIZES]
   res = common.pmap(_sizes_work, items, chunksize=1)
@@ -493,6 +572,7 @@ def run_sizes(rep):
 def run(tier):
   rep = common.Report(PID, tier, 'fault_enumeration')
   run_sizes(rep)
+  run_shared(rep)
   for k in ('small', 'nan') + (('large',) if tier == 'thorough' else ()):
     make_record(k)  # built before forking so that every worker shares them
   items = [(s, p) for s in scenarios(tier) for p in ('fresh', 'previous')]
@@ -522,6 +602,11 @@ def run(tier):
 
 
 def replay(art):
+  if 'shared_case' in art.get('replay', {}):
+    bad = run_shared_callback(*art['replay']['shared_case'])
+    for b in bad:
+      print('VIOLATED', b)
+    return 1 if bad else 0
   r = art['replay']
   if r.get('sizes_case'):
     mode, n1, n2, n3 = r['sizes_case']
